@@ -191,6 +191,187 @@ fn grid_items() -> Vec<(String, Library)> {
     v
 }
 
+
+// ------------------------------------------------------- declaration grid
+use crate::gen_syntax::{id, sint, uint};
+use ironplc_dsl::core::SourceSpan;
+
+fn iconst(v: u128) -> ConstantKind {
+    ConstantKind::IntegerLiteral(IntegerLiteral { value: sint(v, false), data_type: None })
+}
+fn ev(n: &str) -> EnumeratedValue {
+    EnumeratedValue::new(n)
+}
+fn arr_spec() -> ArraySpecificationKind {
+    ArraySpecificationKind::Subranges(ArraySubranges { ranges: vec![Subrange { start: sint(1, false), end: sint(3, false) }], type_name: Type::from("INT") })
+}
+fn sub_spec() -> SubrangeSpecificationKind {
+    SubrangeSpecificationKind::Specification(SubrangeSpecification { type_name: ElementaryTypeName::INT, subrange: Subrange { start: sint(0, false), end: sint(9, false) } })
+}
+
+/// every initialiser kind of `var_init_decl`
+fn init_kinds_var() -> Vec<(&'static str, InitialValueAssignmentKind)> {
+    use InitialValueAssignmentKind as K;
+    vec![
+        ("simple", K::Simple(SimpleInitializer { type_name: Type::from("INT"), initial_value: None })),
+        ("simple-const", K::Simple(SimpleInitializer { type_name: Type::from("INT"), initial_value: Some(iconst(5)) })),
+        ("derived-const", K::Simple(SimpleInitializer { type_name: Type::from("MyT"), initial_value: Some(iconst(5)) })),
+        ("enum-type", K::EnumeratedType(EnumeratedInitialValueAssignment { type_name: Type::from("MyE"), initial_value: Some(ev("va")) })),
+        ("enum-values", K::EnumeratedValues(EnumeratedValuesInitializer { values: vec![ev("va"), ev("vb")], initial_value: None })),
+        ("enum-values-init", K::EnumeratedValues(EnumeratedValuesInitializer { values: vec![ev("va"), ev("vb")], initial_value: Some(ev("vb")) })),
+        ("late", K::LateResolvedType(Type::from("MyT"))),
+        ("struct-init", K::Structure(StructureInitializationDeclaration { type_name: Type::from("MyS"), elements_init: vec![StructureElementInit { name: id("fx"), init: StructInitialValueAssignmentKind::Constant(iconst(1)) }] })),
+        ("string", K::String(StringInitializer { length: None, width: StringType::String, initial_value: None, keyword_span: SourceSpan::default() })),
+        ("wstring-len-init", K::String(StringInitializer { length: Some(uint(10)), width: StringType::WString, initial_value: Some("ab".chars().collect()), keyword_span: SourceSpan::default() })),
+        ("array", K::Array(ArrayInitialValueAssignment { spec: arr_spec(), initial_values: vec![] })),
+        ("array-init", K::Array(ArrayInitialValueAssignment { spec: arr_spec(), initial_values: vec![ArrayInitialElementKind::Constant(iconst(1)), ArrayInitialElementKind::Constant(iconst(2))] })),
+    ]
+}
+fn init_kinds_function_var() -> Vec<(&'static str, InitialValueAssignmentKind)> {
+    init_kinds_var().into_iter().filter(|(n, _)| ["simple", "simple-const", "derived-const", "enum-type", "enum-values", "enum-values-init", "late"].contains(n)).collect()
+}
+fn init_kinds_inout() -> Vec<(&'static str, InitialValueAssignmentKind)> {
+    use InitialValueAssignmentKind as K;
+    vec![
+        ("late-elementary", K::LateResolvedType(Type::from("INT"))),
+        ("late-derived", K::LateResolvedType(Type::from("MyT"))),
+        ("subrange", K::Subrange(sub_spec())),
+        ("enum-values", K::EnumeratedValues(EnumeratedValuesInitializer { values: vec![ev("va"), ev("vb")], initial_value: None })),
+        ("array", K::Array(ArrayInitialValueAssignment { spec: arr_spec(), initial_values: vec![] })),
+    ]
+}
+fn init_kinds_incomplete() -> Vec<(&'static str, InitialValueAssignmentKind)> {
+    use InitialValueAssignmentKind as K;
+    vec![
+        ("simple", K::Simple(SimpleInitializer { type_name: Type::from("BOOL"), initial_value: None })),
+        ("subrange", K::Subrange(sub_spec())),
+        ("enum-values", K::EnumeratedValues(EnumeratedValuesInitializer { values: vec![ev("va"), ev("vb")], initial_value: None })),
+        ("enum-type", K::EnumeratedType(EnumeratedInitialValueAssignment { type_name: Type::from("MyE"), initial_value: None })),
+        ("array", K::Array(ArrayInitialValueAssignment { spec: arr_spec(), initial_values: vec![] })),
+        ("string-len", K::String(StringInitializer { length: Some(uint(8)), width: StringType::String, initial_value: None, keyword_span: SourceSpan::default() })),
+        ("wstring", K::String(StringInitializer { length: None, width: StringType::WString, initial_value: None, keyword_span: SourceSpan::default() })),
+    ]
+}
+
+fn sym(name: &str, vt: VariableType, q: DeclarationQualifier, init: InitialValueAssignmentKind) -> VarDecl {
+    VarDecl { identifier: VariableIdentifier::Symbol(id(name)), var_type: vt, qualifier: q, initializer: init }
+}
+
+/// every POU kind x VAR block class x qualifier x initialiser kind the grammar admits
+fn decl_grid_items() -> Vec<(String, Library)> {
+    use DeclarationQualifier::*;
+    let mut cells: Vec<(String, &'static str, Vec<VarDecl>, Vec<EdgeVarDecl>)> = vec![];
+    for pou in ["fb", "program", "function"] {
+        let var_quals: Vec<DeclarationQualifier> = if pou == "function" { vec![Unspecified, Constant] } else { vec![Unspecified, Constant, Retain, NonRetain] };
+        let var_kinds = if pou == "function" { init_kinds_function_var() } else { init_kinds_var() };
+        for q in &var_quals {
+            for (kn, k) in &var_kinds {
+                cells.push((format!("{}.VAR.{:?}.{}", pou, q, kn), pou, vec![sym("v1", VariableType::Var, q.clone(), k.clone())], vec![]));
+            }
+        }
+        for (vt, vn) in [(VariableType::Input, "VAR_INPUT"), (VariableType::Output, "VAR_OUTPUT")] {
+            for q in [Unspecified, Retain, NonRetain] {
+                for (kn, k) in &init_kinds_var() {
+                    cells.push((format!("{}.{}.{:?}.{}", pou, vn, q, kn), pou, vec![sym("v1", vt.clone(), q.clone(), k.clone())], vec![]));
+                }
+            }
+        }
+        for (kn, k) in &init_kinds_inout() {
+            cells.push((format!("{}.VAR_IN_OUT.{}", pou, kn), pou, vec![sym("v1", VariableType::InOut, Unspecified, k.clone())], vec![]));
+        }
+        if pou != "program" {
+            for q in [Unspecified, Retain, NonRetain] {
+                for dir in [EdgeDirection::Rising, EdgeDirection::Falling] {
+                    cells.push((format!("{}.edge.{:?}.{:?}", pou, q, dir), pou, vec![], vec![EdgeVarDecl { identifier: id("e1"), direction: dir, qualifier: q.clone() }]));
+                }
+            }
+        }
+        if pou != "function" {
+            for q in [Unspecified, Constant] {
+                for t in ["INT", "MyT"] {
+                    cells.push((format!("{}.VAR_EXTERNAL.{:?}.{}", pou, q, t), pou, vec![sym("g1", VariableType::External, q.clone(), InitialValueAssignmentKind::Simple(SimpleInitializer { type_name: Type::from(t), initial_value: None }))], vec![]));
+                }
+            }
+            for q in [Unspecified, Retain, NonRetain] {
+                for (kn, k) in &init_kinds_incomplete() {
+                    let d = VarDecl {
+                        identifier: VariableIdentifier::Direct(DirectVariableIdentifier {
+                            name: Some(id("l1")),
+                            address_assignment: AddressAssignment { location: LocationPrefix::I, size: SizePrefix::Unspecified, address: vec![], position: SourceSpan::default() },
+                            span: SourceSpan::default(),
+                        }),
+                        var_type: VariableType::Var,
+                        qualifier: q.clone(),
+                        initializer: k.clone(),
+                    };
+                    cells.push((format!("{}.incomplete-located.{:?}.{}", pou, q, kn), pou, vec![d], vec![]));
+                }
+            }
+        }
+        if pou == "program" {
+            for q in [Unspecified, Constant, Retain, NonRetain] {
+                for named in [true, false] {
+                    for init in [None, Some(ConstantKind::Boolean(BooleanLiteral::new(Boolean::True)))] {
+                        let d = VarDecl {
+                            identifier: VariableIdentifier::Direct(DirectVariableIdentifier {
+                                name: if named { Some(id("l1")) } else { None },
+                                address_assignment: AddressAssignment { location: LocationPrefix::Q, size: SizePrefix::X, address: vec![1, 2], position: SourceSpan::default() },
+                                span: SourceSpan::default(),
+                            }),
+                            var_type: VariableType::Var,
+                            qualifier: q.clone(),
+                            initializer: InitialValueAssignmentKind::Simple(SimpleInitializer { type_name: Type::from("BOOL"), initial_value: init.clone() }),
+                        };
+                        cells.push((format!("program.located.{:?}.{}.{}", q, if named { "named" } else { "unnamed" }, if init.is_some() { "init" } else { "noinit" }), pou, vec![d], vec![]));
+                    }
+                }
+            }
+        }
+    }
+    let mut out = vec![];
+    for (name, pou, vars, edges) in cells {
+        for neighbour in [false, true] {
+            let mut vars = vars.clone();
+            if neighbour {
+                // a second block of another class after the cell: order and separation must be kept
+                vars.push(sym("n1", VariableType::Output, DeclarationQualifier::Unspecified, InitialValueAssignmentKind::Simple(SimpleInitializer { type_name: Type::from("BOOL"), initial_value: None })));
+            }
+            let stmt = StmtKind::assignment(Variable::named("x"), ExprKind::late_bound("y"));
+            let elem = match pou {
+                "fb" => LibraryElementKind::FunctionBlockDeclaration(FunctionBlockDeclaration { name: id("pou1"), variables: vars, edge_variables: edges.clone(), body: FunctionBlockBodyKind::stmts(vec![stmt]), span: SourceSpan::default() }),
+                "program" => LibraryElementKind::ProgramDeclaration(ProgramDeclaration { name: id("pou1"), variables: vars, access_variables: vec![], body: FunctionBlockBodyKind::stmts(vec![stmt]) }),
+                _ => LibraryElementKind::FunctionDeclaration(FunctionDeclaration { name: id("pou1"), return_type: Type::from("INT"), variables: vars, edge_variables: edges.clone(), body: vec![stmt] }),
+            };
+            out.push((format!("{}{}", name, if neighbour { "+neighbour" } else { "" }), Library { elements: vec![elem] }));
+        }
+    }
+    out
+}
+
+fn run_decl_grid(rep: &mut Report, gates: &Gates) {
+    let items = decl_grid_items();
+    let off = gates.off_list();
+    let n = items.len();
+    let out = run_items(&items, 8, |(name, lib), stats| {
+        let g = Gates::with_off(off.clone());
+        // gated cells are skipped (counted)
+        if (name.contains("VAR_IN_OUT") && false) || (name.contains("incomplete-located") && name.contains("wstring") && g.is_off("INCOMPLETE_LOCATED_WSTRING")) {
+            stats.class("grid.declaration.gated");
+            return Ok(());
+        }
+        let text = print_canonical(lib, &g);
+        stats.case(true, hash_str(&text));
+        stats.class("grid.declaration");
+        if name.starts_with("program.located.Retain.unnamed.init") {
+            let t = text.clone();
+            stats.sample(8, || json!({"grid": name, "text": t}));
+        }
+        compare(lib, &text).map_err(|(kind, detail)| Failure::new("declaration-grid", &kind, format!("{}: {}", name, detail), json!({"grid": name, "text": text})))
+    });
+    rep.add(out);
+    rep.extra.insert("declaration_grid_cells".into(), json!(n));
+}
+
 fn run_grid(rep: &mut Report, gates: &Gates) {
     let items = grid_items();
     let off = gates.off_list();
@@ -215,10 +396,11 @@ pub fn run(ctx: &Ctx) -> i32 {
         ctx.tier,
         ctx.seed,
         "exploration",
-        "tape -> dsl library in the image of a faithful parser (gen_syntax) -> harness printer (alternative productions from the tape, mild layout) -> parse_program must return the same library (derived ==, plus case-sensitive identifier spellings in visit order). Exhaustive grid: all 225 ordered binary operator pairs x both association shapes, all unary/binary mixes, 225 operator triples x 3 shapes. Non-trivial: >= 1 declaration and >= 3 distinct grammar productions exercised; distinct by hash of the program text.",
+        "tape -> dsl library in the image of a faithful parser (gen_syntax) -> harness printer (alternative productions from the tape, mild layout) -> parse_program must return the same library (derived ==, plus case-sensitive identifier spellings in visit order). Exhaustive grids: all 225 ordered binary operator pairs x both association shapes, all unary/binary mixes, 225 operator triples x 3 shapes; every POU kind x VAR block class x qualifier x initialiser kind the grammar admits (alone and followed by a neighbour block). Non-trivial: >= 1 declaration and >= 3 distinct grammar productions exercised; distinct by hash of the program text.",
     );
     let gates = ctx.gates_for("C01");
     run_grid(&mut rep, &gates);
+    run_decl_grid(&mut rep, &gates);
     rep.exhaustive = Some(false);
     rep.extra.insert("expression_grid_exhaustive".into(), json!(true));
     let cases = ctx.tier.pick(200_000, 3_000_000);
@@ -272,6 +454,16 @@ pub fn replay(ctx: &Ctx, v: &Value) -> i32 {
             let tape: Vec<u8> = v["tape"].as_array().map(|a| a.iter().map(|x| x.as_u64().unwrap_or(0) as u8).collect()).unwrap_or_default();
             let mut s = Stats::default();
             check_tape(&tape, &gates, &mut s, false).map_err(|f| format!("{}: {}", f.kind, f.detail))
+        }
+        "declaration-grid" => {
+            let name = v["inputs"]["grid"].as_str().unwrap_or("");
+            match decl_grid_items().into_iter().find(|(n, _)| n == name) {
+                Some((_, lib)) => {
+                    let text = print_canonical(&lib, &gates);
+                    compare(&lib, &text).map_err(|(k, d)| format!("{}: {}", k, d))
+                }
+                None => Err("grid item not found".into()),
+            }
         }
         "expression-grid" => {
             let name = v["inputs"]["grid"].as_str().unwrap_or("");
